@@ -46,6 +46,14 @@ func main() {
 		}
 		checks.Only = only
 		os.Exit(checks.Execute(id, tier, seed, verbose))
+	case "replay":
+		if len(os.Args) < 3 {
+			fmt.Println("usage: gosym replay <file>")
+			os.Exit(2)
+		}
+		os.Exit(checks.Replay(os.Args[2]))
+	case "selftest":
+		os.Exit(checks.SelfTest())
 	case "probe":
 		if pf := os.Getenv("GOSYM_PROF"); pf != "" {
 			f, _ := os.Create(pf)
